@@ -1,2 +1,232 @@
-def consumer_witness(ai, props):
+"""Independent value model for GS1-128 element strings (DESIGN C16).
+
+Written from the GS1 General Specifications and the `format`/`type`/`fnc1` columns of gs1_ai.dat (read with the
+reference registry reader). Nothing here calls stdnum.gs1_128.
+"""
+import datetime
+import decimal
+import os
+import re
+
+from hypothesis import strategies as st
+
+from vf import core
+from vf.refs import numdbref
+
+CSET82 = '!"%&\'*+,-./0123456789:;<=>?ABCDEFGHIJKLMNOPQRSTUVWXYZ_abcdefghijklmnopqrstuvwxyz'  # ( ) handled below
+CSET39 = '#-/0123456789ABCDEFGHIJKLMNOPQRSTUVWXYZ'
+CSET64 = 'ABCDEFGHIJKLMNOPQRSTUVWXYZabcdefghijklmnopqrstuvwxyz0123456789-_'
+
+_ais = None
+
+
+def ais():
+    """{ai: props} from the registry file of the tree under test."""
+    global _ais
+    if _ais is None:
+        text = open(os.path.join(core.REPO, 'stdnum', 'gs1_ai.dat'), encoding='utf-8').read()
+        roots, _ = numdbref.parse(text)
+        d = {}
+        for e in roots:
+            for lo, hi in e.ranges:
+                for n in range(int(lo), int(hi) + 1):
+                    d[str(n).zfill(len(lo))] = dict(e.props)
+        _ais = d
+    return _ais
+
+
+def components(fmt):
+    """Parse a format into [(kind, variable, k, optional)]; kind in N X Y Z or '-' (optional literal minus)."""
+    out = []
+    optional = False
+    for part in fmt.split('+'):
+        if part == '[-]':
+            out.append(('-', False, 1, True))
+            continue
+        if part.endswith('['):
+            part = part[:-1]
+            nxt_optional = True
+        else:
+            nxt_optional = False
+        this_optional = optional
+        if part.endswith(']'):
+            part = part[:-1]
+        m = re.match(r'^([NXYZ])(\.\.)?(\d+)$', part)
+        if not m:
+            raise core.HarnessError('GS1 format not understood by the model: %r' % fmt)
+        out.append((m.group(1), bool(m.group(2)), int(m.group(3)), this_optional))
+        optional = nxt_optional
+    return out
+
+
+def maxlen(fmt, typ):
+    return sum(k for _, _, k, _ in components(fmt)) + (1 if typ == 'decimal' else 0)
+
+
+def alphabet(kind, sep):
+    a = {'N': '0123456789', 'X': CSET82, 'Y': CSET39, 'Z': CSET64}[kind]
+    return ''.join(c for c in a if c not in sep)
+
+
+def gtin14(draw):
+    body = draw(st.text(alphabet='0123456789', min_size=13, max_size=13))
+    s = sum((3, 1)[i % 2] * int(n) for i, n in enumerate(reversed(body)))
+    return body + str((10 - s) % 10)
+
+
+IBANS = ['NL91ABNA0417164300', 'GB82WEST12345698765432', 'DE89370400440532013000', 'FR1420041010050500013M02606']
+
+
+def last_day(y, m):
+    if m == 12:
+        return datetime.date(y, 12, 31)
+    return datetime.date(y, m + 1, 1) - datetime.timedelta(days=1)
+
+
+@st.composite
+def value(draw, ai, sep):
+    """Draw (encoded text, python value) for the AI."""
+    p = ais()[ai]
+    fmt, typ = p['format'], p['type']
+    if ai in ('01', '02'):
+        v = gtin14(draw)
+        return v, v
+    if ai == '8007':
+        v = draw(st.sampled_from(IBANS))  # valid IBANs (ISO 13616 examples)
+        return v, v
+    if typ == 'str':
+        out = ''
+        for kind, var, k, opt in components(fmt):
+            if opt and draw(st.integers(0, 2)) == 0:
+                break
+            if kind == '-':
+                out += '-'
+                continue
+            n = draw(st.one_of(st.integers(1, k), st.just(k), st.just(1))) if var else k
+            al = alphabet(kind, sep)
+            out += draw(st.text(alphabet=al, min_size=n, max_size=n))
+        return out, out
+    if typ == 'int':
+        (kind, var, k, _), = components(fmt)
+        n = draw(st.integers(1, k)) if var else k
+        s = draw(st.text(alphabet='0123456789', min_size=n, max_size=n))
+        return s, int(s)
+    if typ == 'decimal':
+        comps = components(fmt)
+        pre = ''
+        if len(comps) == 2:
+            pre = draw(st.text(alphabet='0123456789', min_size=3, max_size=3))
+            comps = comps[1:]
+        (kind, var, k, _), = comps
+        if var:
+            n = draw(st.integers(1, k))
+            dp = draw(st.integers(0, min(9, n)))  # implied places within the digits present
+        else:
+            n = k
+            dp = draw(st.integers(0, k - 1))
+        digs = draw(st.text(alphabet='0123456789', min_size=n, max_size=n))
+        val = decimal.Decimal((digs[:n - dp] or '0') + ('.' + digs[n - dp:] if dp else ''))
+        enc = str(dp) + pre + digs
+        return enc, ((pre, val) if pre else val)
+    if typ == 'date':
+        y = draw(st.integers(2000, 2049))
+        mth = draw(st.integers(1, 12))
+        d = datetime.date(y, mth, draw(st.integers(1, last_day(y, mth).day)))
+        if fmt == 'N6':
+            if draw(st.integers(0, 3)) == 0:
+                return d.strftime('%y%m') + '00', last_day(y, mth)
+            return d.strftime('%y%m%d'), d
+        if fmt in ('N6[+N6]', 'N6..12'):
+            if draw(st.booleans()):
+                return d.strftime('%y%m%d'), d
+            d2 = d + datetime.timedelta(days=draw(st.integers(0, 400)))
+            return d.strftime('%y%m%d') + d2.strftime('%y%m%d'), (d, d2)
+        hh, mm, ss = draw(st.integers(0, 23)), draw(st.integers(0, 59)), draw(st.integers(0, 59))
+        if fmt == 'N10':
+            dt = datetime.datetime(d.year, d.month, d.day, hh, mm)
+            return dt.strftime('%y%m%d%H%M'), dt
+        if fmt in ('N6[+N4]', 'N6+N..4', 'N6[+N..4]'):
+            if draw(st.integers(0, 3)) == 0:
+                return d.strftime('%y%m%d'), d
+            dt = datetime.datetime(d.year, d.month, d.day, hh, mm)
+            return dt.strftime('%y%m%d%H%M'), dt
+        if fmt in ('N8[+N..4]', 'N8+N..4'):
+            r = draw(st.integers(0, 2))
+            if r == 0:
+                dt = datetime.datetime(d.year, d.month, d.day, hh)
+                return dt.strftime('%y%m%d%H'), dt
+            if r == 1:
+                dt = datetime.datetime(d.year, d.month, d.day, hh, mm)
+                return dt.strftime('%y%m%d%H%M'), dt
+            dt = datetime.datetime(d.year, d.month, d.day, hh, mm, ss)
+            return dt.strftime('%y%m%d%H%M%S'), dt
+        raise core.HarnessError('GS1 date format not understood by the model: %r' % fmt)
+    raise core.HarnessError('GS1 type not understood by the model: %r' % typ)
+
+
+def pad(ai, enc):
+    """Pad a non-last variable field to its maximum length (the convention encode() documents); None = cannot."""
+    p = ais()[ai]
+    fmt, typ = p['format'], p['type']
+    L = maxlen(fmt, typ)
+    if len(enc) == L:
+        return enc
+    if typ == 'int':
+        return enc.rjust(L, '0')
+    if typ == 'decimal':
+        pre = 3 if fmt.startswith('N3+') else 0
+        return enc[0] + enc[1:1 + pre] + enc[1 + pre:].rjust(L - 1 - pre, '0')
+    if typ == 'date':
+        return None
+    return enc.ljust(L)
+
+
+def build(items, sep, parens):
+    """Own encoder: items in the given order; returns None if the order cannot be expressed."""
+    s = ''
+    for i, (ai, enc) in enumerate(items):
+        last = i == len(items) - 1
+        variable = bool(ais()[ai].get('fnc1'))
+        if variable and not last:
+            if sep:
+                enc = enc + sep
+            else:
+                enc = pad(ai, enc)
+                if enc is None:
+                    return None
+        s += ('(%s)' % ai if parens else ai) + enc
+    return s
+
+
+def simple_value(ai):
+    """A fixed simple (encoded, value) for the C11 consumer witness."""
+    from hypothesis import HealthCheck, Phase, given, seed, settings
+    box = {}
+
+    @seed(core.subseed('gs1', ai))
+    @settings(max_examples=1, database=None, deadline=None, phases=[Phase.generate], suppress_health_check=list(HealthCheck))
+    @given(value(ai, ''))
+    def t(v):
+        box.setdefault('v', v)
+    t()
+    return box['v']
+
+
+def consumer_witness(ai_lo, props):
+    """C11: the AI can be encoded and decoded, with and without separator."""
+    m = core.mod('gs1_128')
+    try:
+        enc, val = simple_value(ai_lo)
+    except core.HarnessError as e:
+        return ('consumer:gs1-format-not-understood', str(e))
+    for sep in ('', '|'):
+        r = core.out(m.encode, {ai_lo: val}, sep)
+        if r[0] != 'ok':
+            return ('consumer:gs1_128.encode', (val, r))
+        b = core.out(m.info, r[1], sep)
+        if b != ('ok', {ai_lo: val}):
+            return ('consumer:gs1_128.info(encode)', (val, r[1], b))
+        d = core.out(m.info, ai_lo + enc, sep)
+        if d != ('ok', {ai_lo: val}):
+            return ('consumer:gs1_128.info', (ai_lo + enc, d))
     return None
